@@ -6,6 +6,7 @@ from collections import namedtuple
 from .model import AnalysisError, node_src, is_self_attr, call_name
 from .paths import Interp, Domain, Env, TOP, NONE, Const, TupleV, Exc, ORD, fmt_trace, Opaque, Ctx
 from .report import walk_no_nested
+from .colls import ExactCollections
 
 LEVEL = "other"
 LEVEL_TEXT = (
@@ -496,10 +497,14 @@ def run(chk):
                     r4.fail("%s:mutates-nodes" % f.qualname, "%s mutates the hasher's node list directly (`%s`)" % (f.qualname, node_src(n)), fn=f, node=n)
     add = prog.method(rv, "add_node")
     rem = prog.method(rv, "remove_node")
+    decided_on_histories = rotation_histories(prog, rv, r4, chk.tier)
     for f, op in ((add, "append"), (rem, "remove")):
         muts = [n for n in walk_no_nested(f.node) if isinstance(n, ast.Call) and isinstance(n.func, ast.Attribute) and is_self_attr(n.func.value, "nodes")]
         other_state = [n for n in walk_no_nested(f.node) if isinstance(n, (ast.Assign, ast.AugAssign, ast.Delete)) and any(is_self_attr(x) or (isinstance(x, ast.Subscript)) for t in (n.targets if not isinstance(n, ast.AugAssign) else [n.target]) for x in ast.walk(t))]
         if not muts or any(m_.func.attr != op for m_ in muts) or other_state:
+            if decided_on_histories:
+                r4.note("%s keeps the rotation with more than one append/remove on self.nodes: decided on the add/remove histories alone" % f.qualname)
+                continue
             raise AnalysisError("C11.R4: %s mutates the rotation in a way this rule has no model for (%s%s); the set-like behaviour of add/remove cannot be decided structurally" % (f.qualname, [node_src(m_) for m_ in muts], ", plus other state: " + node_src(other_state[0]) if other_state else ""))
         p = f.pos_params()[0].name
         for member in (True, False):
@@ -568,6 +573,161 @@ def run(chk):
     chk.assume("scores are non-negative integers (C14.R1), so the initial best score -1 is below every score")
     chk.assume("node names are str (HashClient._make_client_key yields str), so str(node) is the identity")
     chk.assume("HRW theorem: the argmax of per-node scores that depend only on (node, key) moves a key only from a removed node / onto an added node")
+
+
+class RotationDomain(ExactCollections, Domain):
+    """The hasher's methods interpreted on a concrete rotation: node names are pairwise distinct symbols, the lists and
+    dicts the hasher keeps are heap objects with exact content (pmcsa/colls.py), `self.<attr>` lives in the state.  For
+    get_node the sequence its (first) loop walks over is recorded: that is the rotation as placement sees it."""
+
+    async_enabled = False
+    subscript_may_raise = False
+    unpack_may_raise = False
+    max_inline_depth = 3
+
+    def __init__(self, prog, fn):
+        super().__init__(prog, fn)
+        self.walked = None
+
+    def mark_imprecise(self, state, node):
+        return state.set("#imprecise", 1)
+
+    def name_load(self, name, state, node=None):
+        return state.get(name, TOP)
+
+    def attr_load(self, objval, node, state):
+        b = self.coll_attr(objval, node)
+        if b is not None:
+            return b
+        if is_self_attr(node):
+            return state.get("self." + node.attr, TOP)
+        return TOP
+
+    def for_next(self, node, itval, state):
+        if self.walked is None and self.fn is not None and self.fn.name == "get_node":
+            seq = self._seq(itval, state)
+            self.walked = tuple(seq) if seq is not None else "unknown"
+        return super().for_next(node, itval, state)
+
+    def call(self, node, fval, args, kwargs, state):
+        r = self.coll_call(node, fval, args, kwargs, state)
+        if r is not None:
+            return r
+        name = call_name(node)
+        if name.startswith("self._") and name.count(".") == 1 and self.prog is not None and self.fn is not None and self.fn.cls is not None:
+            m = self.fn.cls.methods.get(name[5:])
+            if m is not None:
+                res = self.inline(node, m, args, kwargs, state)
+                if res is not None:
+                    return res
+        return [("ok", TOP, state)]
+
+
+def rotation_histories(prog, rv, r4, tier):
+    """C11.R4, decided on histories: from an empty hasher, every sequence of add_node / remove_node calls over four
+    node names is followed until no new hasher state turns up (or the depth bound is reached); after every call the
+    sequence get_node walks over must hold exactly the nodes the same calls leave in a *set* - each once.  So the
+    rotation depends on which nodes are in it and not on the calls that put them there, whatever bookkeeping (position
+    indexes, swap-removal, rebuilt lists) the hasher uses internally."""
+    from .colls import carry_over, new_object
+
+    init = prog.method(rv, "__init__")
+    add = prog.method(rv, "add_node")
+    rem = prog.method(rv, "remove_node")
+    gn = prog.method(rv, "get_node")
+    U = [Opaque("N%d" % i) for i in range(1, 5)]
+    depth = 7 if tier == "thorough" else 5
+    keep = lambda k: k.startswith("self.")
+
+    def call(f, carried, argval):
+        dom = RotationDomain(prog, f)
+        env = dict(carried)
+        for p in f.params:
+            if p.name == "self":
+                continue
+            if argval is not None and p is f.pos_params()[0]:
+                env[p.name] = argval
+            elif p.has_default:
+                env[p.name] = Const(p.default.value) if isinstance(p.default, ast.Constant) else Opaque("default:" + p.name)
+            else:
+                env[p.name] = TOP
+        outs = Interp(dom, f.node, prog).run(Env(env))
+        return dom, outs
+
+    def walked(carried):
+        dom, outs = call(gn, carried, Opaque("key"))
+        return dom.walked
+
+    def problem(construct, msg, f):
+        r4.fail(construct, msg, fn=f, node=f.node)
+
+    dom, outs = call(init, {}, None)
+    rets = outs.of("ret")
+    if len(rets) != 1 or outs.of("exc") or rets[0][0].get("#imprecise", 0):
+        r4.undecided("RendezvousHash.__init__:rotation", "the constructor does not leave one exactly known state (%d normal exits, %d raising)" % (len(rets), len(outs.of("exc"))))
+        return
+    start = carry_over(rets[0][0], keep)
+    w = walked(start)
+    if w is None or w == "unknown":
+        r4.undecided("RendezvousHash.get_node:rotation", "the sequence get_node walks over is not an exactly known collection of the hasher")
+        return
+    if w != ():
+        problem("RendezvousHash.__init__:rotation-not-empty", "a hasher constructed without nodes has %s in rotation" % [getattr(x, "tag", str(x)) for x in w], init)
+        return
+    seen = {}
+    frontier = [(frozenset(), tuple(sorted(start.items(), key=str)), ())]
+    n_calls = 0
+    reported = set()
+    for d in range(depth):
+        nxt = []
+        for S, frozen, hist in frontier:
+            carried = dict(frozen)
+            for f, opname in ((add, "add_node"), (rem, "remove_node")):
+                for x in U:
+                    n_calls += 1
+                    h2 = hist + ("%s(%s)" % (opname, x.tag),)
+                    dom, outs = call(f, carried, x)
+                    rets, excs = outs.of("ret"), outs.of("exc")
+                    if len(rets) + len(excs) != 1 or any(s.get("#imprecise", 0) for s, v, t in rets + excs):
+                        r4.undecided("RendezvousHash.%s:history" % opname, "after %s the call does not have one exactly known outcome (%d normal, %d raising)" % (", ".join(h2), len(rets), len(excs)))
+                        return
+                    raised = bool(excs)
+                    s2 = (rets or excs)[0][0]
+                    if opname == "add_node":
+                        S2 = S | {x}
+                        want_raise = False
+                    else:
+                        S2 = S - {x}
+                        want_raise = x not in S
+                    key = "RendezvousHash.%s:history" % opname
+                    if raised != want_raise:
+                        if key not in reported:
+                            reported.add(key)
+                            problem(key, "after %s: %s %s although the node is %s rotation" % (", ".join(hist) or "construction", h2[-1], "raises %s" % excs[0][1].cls if raised else "returns normally", "in" if x in S else "not in"), f)
+                        continue
+                    carried2 = carry_over(s2, keep)
+                    w = walked(carried2)
+                    if w is None or w == "unknown":
+                        r4.undecided("RendezvousHash.get_node:rotation", "after %s the sequence get_node walks over is not exactly known" % ", ".join(h2))
+                        return
+                    if sorted(w, key=str) != sorted(S2, key=str):
+                        if key not in reported:
+                            reported.add(key)
+                            problem(key, "after %s the rotation get_node walks over is %s; the nodes added and not removed are %s - placement now depends on the history of calls, not on the set of nodes" % (", ".join(h2), [n_.tag if isinstance(n_, Opaque) else str(n_) for n_ in w], sorted(n_.tag for n_ in S2)), f)
+                        continue
+                    fz = tuple(sorted(carried2.items(), key=str))
+                    if (S2, fz) not in seen:
+                        seen[(S2, fz)] = h2
+                        nxt.append((S2, fz, h2))
+        frontier = nxt
+        if not frontier:
+            break
+    r4.count("hasher states reached by add/remove histories", len(seen))
+    r4.count("add/remove calls interpreted", n_calls)
+    r4.floor("hasher states reached by add/remove histories", len(seen), 16)
+    if not reported:
+        r4.ok("every add_node/remove_node history over 4 node names (all %d reachable hasher states%s) leaves exactly the set of nodes in rotation" % (len(seen), "" if not frontier else ", depth %d" % depth))
+    return True
 
 
 class MemberDomain(Domain):
